@@ -503,6 +503,8 @@ class Prop(PropBase):
             "Transaction / Method / def_methods", "TransactionManager + scheduler", "amaranth pysim"]
     stubs = ["calling transactions (request bit, enable_call bit and argument per call driven by the cycle driver)",
              "integer models modulo register width"]
+    assumptions = ["a call executed in cycle t is visible in the metric registers from cycle t+1; histogram bucket boundaries, "
+                   "min / max / sum / count as documented in the class docstrings"]
     search_space = ("metric configurations (ways, widths, tag sets of all documented forms, bucket layouts, enabled/disabled) "
                     "and per-cycle sets of executed calls with their tags / samples")
 
